@@ -106,15 +106,18 @@ def typestate_then(it, hcell, r):
     return r
 
 
-def run(ctx, rep):
+def declare(rep):
     rep.rule("R04.1", "every path of every function that can change a node's value or the counter changes both by the "
                       "same amount (work-list loops: per iteration; clear: arena.clear paired with count := 0)")
     rep.rule("R04.2", "a method that only borrows an OccupiedEntry leaves the node holding a value")
     rep.rule("R04.3", "every slot pushed on the free list holds no value at that point")
     rep.rule("R04.4", "len/is_empty read only the counter; sets delegate; all counter writers are analysed")
     rep.rule("R04.5", "no exported signature returns &mut Option<T>, &mut Node, &mut Vec<Node> or &mut Table")
+
+
+def run_config(ctx, rep, cfg, F):
     sample_done = set()
-    for cfg, F in ctx.facts.items():
+    if True:
         muts = mutator_set(F)
         analysed = set()
         entered = set()
@@ -234,6 +237,9 @@ def run(ctx, rep):
                             "crate could change presence or links behind the counter" % (F.short_of[f["path"]], out), config=cfg)
         if not leaks:
             rep.ok("R04.5", "all exported signatures", "no leaking &mut")
+
+
+def finalize(ctx, rep):
     # ---- canary: the balance rule must fire when one counter event is dropped from a real path
     F = ctx.main()
     paths = ctx.paths(F, "PrefixMap::remove_keep_tree", OPTS)
